@@ -1648,7 +1648,9 @@ func (d *decoderJsonBytes) kInterfaceNaked(f *decFnInfo) (rvn reflect.Value) {
 				if bfn.ext == SelfExt {
 
 					bytes = d.sideDecodeInput(bytes, d.attachState(!d.bytes))
-					sideDecode(d.hh, &d.h.sideDecPool, func(sd decoderI) { oneOffDecode(sd, rv2i(rvn), bytes, bfn.rt, true) })
+					d.depthIncr()
+					sideDecode(d.hh, &d.h.sideDecPool, func(sd decoderI) { oneOffDecode(sd, rv2i(rvn), bytes, bfn.rt, true, d.depth) })
+					d.depthDecr()
 				} else {
 					bfn.ext.ReadExt(rv2i(rvn), bytes)
 				}
@@ -5827,7 +5829,9 @@ func (d *decoderJsonIO) kInterfaceNaked(f *decFnInfo) (rvn reflect.Value) {
 				if bfn.ext == SelfExt {
 
 					bytes = d.sideDecodeInput(bytes, d.attachState(!d.bytes))
-					sideDecode(d.hh, &d.h.sideDecPool, func(sd decoderI) { oneOffDecode(sd, rv2i(rvn), bytes, bfn.rt, true) })
+					d.depthIncr()
+					sideDecode(d.hh, &d.h.sideDecPool, func(sd decoderI) { oneOffDecode(sd, rv2i(rvn), bytes, bfn.rt, true, d.depth) })
+					d.depthDecr()
 				} else {
 					bfn.ext.ReadExt(rv2i(rvn), bytes)
 				}
